@@ -111,6 +111,10 @@ pub fn build_guest(e: &mut Ent) -> Guest {
             6 => {
                 features.push("call");
                 emit(&mut c, Insn::Jsr(JTarget::Abs(BASE + leaf_off)));
+                // the most expensive forms (five fetch words + two data cycles): under slow bus settings
+                // one instruction is charged more than 85 states
+                emit(&mut c, Insn::MovImm { sz: Sz::L, imm: BASE, d: 6 });
+                emit(&mut c, Insn::Load { sz: Sz::L, ea: Ea::D24(6, 0x10 + 4 * e.below(0x40)), d: 3 });
             }
             7 | 8 => {
                 // port writes: direction, then data
@@ -154,6 +158,12 @@ pub fn build_guest(e: &mut Ent) -> Guest {
         if c.len() > 0x1200 {
             break;
         }
+    }
+    if features.contains(&"slow bus prologue") {
+        features.push("instruction charged more than 85 states");
+        emit(&mut c, Insn::MovImm { sz: Sz::L, imm: BASE, d: 6 });
+        emit(&mut c, Insn::Load { sz: Sz::L, ea: Ea::D24(6, 0x20), d: 3 });
+        emit(&mut c, Insn::Store { sz: Sz::L, s: 3, ea: Ea::D24(6, code_max + 0x40) });
     }
     if use_timer {
         // read the counter at the end: what the peripheral saw is part of the final state
